@@ -162,6 +162,8 @@ def print_bdl(p, layout=None, want_doc=False):
         a = []
         if "z" in fl:
             a.append(("Z", fl["z"]))
+        if "floor_height" in fl:
+            a.append(("FLOOR-HEIGHT", fl["floor_height"]))      # storey height incl. plenum: not the height of the spaces
         a += [("SPACE-HEIGHT", fl.get("height", 3)), ("PREVIOUS", q(fl.get("previous", "")))]
         if "mult" in fl:
             a.append(("MULTIPLIER", fl["mult"]))
@@ -421,7 +423,7 @@ def write_synthetic_projects(outdir, n, seed):
         d = os.path.join(outdir, "synth%03d" % i)
         os.makedirs(d, exist_ok=True)
         zone = rng.choice(["D3", "A3", "B4", "C2", "E1", "A3c"])
-        txt = wrap_ctehexml(print_bdl(p, {"preamble": i % 2 == 0, "seed": i}), name="Sintetico %d" % i, zone=zone,
+        txt = wrap_ctehexml(print_bdl(p, {"preamble": i % 2 == 0, "seed": i}), name=("" if i % 4 == 1 else "Sintetico %d" % i), zone=zone,   # (a project without a name is a project)
                             vivienda=rng.choice(["Unifamiliar", "Bloque", "Terciario"]), nuevo=rng.random() < 0.5,
                             n50=rng.choice([None, None, 4.5]))
         with open(os.path.join(d, "synth%03d.ctehexml" % i), "w", encoding="utf-8") as f:
